@@ -281,7 +281,7 @@ def process(ctx, insts, results, tag, maxd):
             bl = lib.parse_bool_list(o) if okc else None
             if bl is not None:
                 inst["status"] = "accepted" if bl[0] else "rejected"
-            elif not o.strip():
+            elif not o.strip() or o.startswith("TIMEOUT"):
                 slow.append(inst)  # killed by the time limit: numbers too large at this degree
             else:
                 inst["status"] = "coq-error"
